@@ -66,6 +66,13 @@ pub fn gen_name(rng: &mut Rng) -> String {
     if rng.chance(1, 12) {
         return String::new();
     }
+    if rng.chance(1, 25) {
+        // exact byte lengths at signed / unsigned 8-bit borders, with a multi-byte tail
+        let len = *rng.pick(&[126usize, 127, 128, 129, 254, 255]);
+        let mut s: String = "n".repeat(len - 2);
+        s.push('é');
+        return s;
+    }
     let mut s = rng.pick(NAME_POOL).to_string();
     if rng.chance(1, 2) {
         s.push_str(&format!(" {}", rng.below(1000)));
@@ -77,7 +84,11 @@ pub fn gen_name(rng: &mut Rng) -> String {
 pub fn gen_ids(rng: &mut Rng, n: usize, reserved: &[u32]) -> Vec<u32> {
     let mut used: BTreeSet<u32> = reserved.iter().copied().collect();
     let mut out = vec![];
-    let borders = [0u32, 2, 9_999_999, 9_999_998, 117, 119];
+    // borders of the id space, powers of two / byte-width borders, the bytes "HPO" as a number
+    let borders = [
+        0u32, 2, 9_999_999, 9_999_998, 117, 119, 255, 256, 257, 511, 512, 4095, 4096, 65_535, 65_536, 65_537, 1_000_000,
+        4_739_151, 4_739_152, 8_388_607, 8_388_608,
+    ];
     while out.len() < n {
         let id = match rng.below(10) {
             0 => *rng.pick(&borders),
@@ -163,8 +174,9 @@ pub fn gen_facts(rng: &mut Rng, opts: &DagOpts) -> (Facts, Shape) {
         let nrec = if rng.chance(1, 8) { 0 } else { rng.range(1, opts.max_recs.max(1) as u64) as usize };
         let mut rids = BTreeSet::new();
         while rids.len() < nrec {
-            let id = match rng.below(6) {
+            let id = match rng.below(8) {
                 0 => rng.range(0, 4_294_967_295) as u32,
+                1 => *rng.pick(&[0u32, 255, 256, 65_535, 65_536, 16_777_215, 16_777_216, 4_739_151, 2_147_483_647, 2_147_483_648, 4_294_967_295]),
                 _ => rng.range(1, 30) as u32,
             };
             rids.insert(id);
@@ -182,7 +194,12 @@ pub fn gen_facts(rng: &mut Rng, opts: &DagOpts) -> (Facts, Shape) {
             }
         }
     }
-    f.version = (rng.below(3000) as u16, rng.below(13) as u8, rng.below(32) as u8);
+    f.version = if rng.chance(1, 6) {
+        // anything the (u16, u8, u8) triple can hold
+        (rng.below(65_536) as u16, rng.below(256) as u8, rng.below(256) as u8)
+    } else {
+        (rng.below(3000) as u16, rng.below(13) as u8, rng.below(32) as u8)
+    };
     (f, shape)
 }
 
@@ -318,7 +335,9 @@ pub fn gen_flags(rng: &mut Rng, f: &mut Facts) -> Flags {
         if f.terms.iter().any(|t| t.0 == id) {
             continue;
         }
-        f.terms.push((id, format!("obsolete {}", gen_name(rng))));
+        let nm = gen_name(rng);
+        // the binary formats carry at most 255 name bytes
+        f.terms.push((id, if nm.len() > 240 { nm } else { format!("obsolete {nm}") }));
         let repl = match rng.below(5) {
             0 => None,
             1 => Some(rng.range(1, 9_999_999) as u32), // may not resolve
